@@ -8,7 +8,7 @@ from ..core import Part
 
 PROPERTY = "C04"
 RULE = ("enum: the 20 single residues, all 400 ordered pairs and all 8000 ordered triples; hyp: sequences of all composition "
-        "classes up to 120 (quick) / 400 (thorough) residues, each with a generated permutation of itself. Oracle: every "
+        "classes up to 400 (quick) / 800 (thorough) residues, half of them (<=40 residues) after a generated warm-up history of other API calls on the same object,, each with a generated permutation of itself. Oracle: every "
         "getter of the statement equals the fsum of the harness's own transcription of the published per-residue table "
         "divided by N (molecular weight: sum - 18(N-1)); identities FCR=f+ + f-, NCPR=f+ - f-, |NCPR|<=FCR<=1, counts sum to N, "
         "fractions sum to 1, mean net charge=|NCPR|, expanding=FCR+f_P, Uversky=KD_shifted/9; permutation invariance (1e-9; "
@@ -32,8 +32,8 @@ GETTERS = [
 ]
 
 
-def observe(seq):
-    o = util.sp(seq)
+def observe(seq, case=None):
+    o = util.spw(seq, case or {})
     out = {}
     for name, meth, _ in GETTERS:
         out[name] = getattr(o, meth)()
@@ -51,7 +51,7 @@ def check_seq(ctx, case):
     want = ref.composition(seq)
     cl = ["has:" + r for r in sorted(set(seq))] + gens.classify(seq)[:1]
     ctx.count(case, nontrivial=(len(set(seq)) >= 3 or case.get("enum", False)), classes=cl)
-    got = observe(seq)
+    got = observe(seq, case)
     for name, meth, exact in GETTERS:
         if exact:
             ctx.check(got[name] == want[name], "table:" + name, "%s()=%r, reference %r" % (meth, got[name], want[name]), case)
@@ -94,13 +94,14 @@ def enum_cases(tier, seed):
 
 @st.composite
 def hyp_case(draw, max_len):
-    s = draw(gens.sequences(max_len=max_len))
-    return {"seq": s, "perm": "".join(draw(st.permutations(list(s))))}
+    warm = draw(gens.warmups())
+    s = draw(gens.sequences(max_len=40 if warm else max_len))
+    return {"seq": s, "perm": "".join(draw(st.permutations(list(s)))), "warm": warm}
 
 
 def parts(tier):
     return [
         Part("enum-words", "enum", check=check_seq, cases=enum_cases, exhaustive=True, shards={"quick": 8, "thorough": 16}),
-        Part("hyp-sequences", "hyp", check=check_seq, strategy=lambda t: hyp_case(120 if t == "quick" else 400),
+        Part("hyp-sequences", "hyp", check=check_seq, strategy=lambda t: hyp_case(400 if t == "quick" else 800),
              examples={"quick": 6400, "thorough": 32000}, shards={"quick": 8, "thorough": 16}),
     ]
